@@ -665,6 +665,11 @@ func (vfs *MemFS) Remove(name string) error {
 		return &fs.PathError{Op: op, Path: name, Err: err}
 	}
 
+	// The root directory can't be removed.
+	if child == node(parent) {
+		return &fs.PathError{Op: op, Path: name, Err: vfs.err.InvalidArgument}
+	}
+
 	parent.mu.Lock()
 	defer parent.mu.Unlock()
 
@@ -712,6 +717,11 @@ func (vfs *MemFS) RemoveAll(path string) error {
 
 	if err != vfs.err.FileExists {
 		return &fs.PathError{Op: op, Path: path, Err: err}
+	}
+
+	// The root directory can't be removed.
+	if child == node(parent) {
+		return &fs.PathError{Op: op, Path: path, Err: vfs.err.InvalidArgument}
 	}
 
 	parent.mu.Lock()
